@@ -26,6 +26,12 @@ type c09Case struct {
 	IOFill  int       `json:"iofill"`
 	Pokes   [][2]int  `json:"pokes"` // extra memory bytes (addr, value), e.g. the CPIR hit
 	NilIO   bool      `json:"nil_io,omitempty"` // no I/O device attached (port reads give 0, writes vanish)
+	// MaskedPending: a maskable request is pending and refused (IFF1 = 0) during the whole operation; it must
+	// neither change the operation nor get lost
+	MaskedPending bool `json:"masked_pending,omitempty"`
+	// DumbLen > 0: the emulator runs on the bundled DumbMemory of that length (reads beyond the end give 0, writes
+	// there are ignored); the closed form applies the same rule
+	DumbLen int `json:"dumb_len,omitempty"`
 }
 
 type c09Spec struct {
@@ -45,7 +51,8 @@ func c09Name(op int) string {
 
 // c09Closed computes the whole operation on the shadow memory sh (already
 // holding the initial contents). Flags follow DESIGN.md 4.2.
-func c09Closed(op int, s ref.State, sh *bus.Rec) c09Spec {
+func c09Closed(op int, s ref.State, sh0 *bus.Rec, limit int) c09Spec {
+	sh := c09Mem{sh0, limit}
 	var sp c09Spec
 	pc0 := s.PC
 	rep := op&0x10 != 0
@@ -170,10 +177,31 @@ func c09Closed(op int, s ref.State, sh *bus.Rec) c09Spec {
 	return sp
 }
 
+// c09Mem applies the bounds rule of a short DumbMemory to the shadow memory (limit 0 = full 64 KiB).
+type c09Mem struct {
+	*bus.Rec
+	limit int
+}
+
+func (m c09Mem) Peek(a uint16) uint8 {
+	if m.limit > 0 && int(a) >= m.limit {
+		return 0
+	}
+	return m.Rec.Peek(a)
+}
+
+func (m c09Mem) Poke(a uint16, v uint8) {
+	if m.limit > 0 && int(a) >= m.limit {
+		return
+	}
+	m.Rec.Poke(a, v)
+}
+
 type c09Rig struct {
 	ib, sh *bus.Rec
 	cpu    z80.CPU
 	lock   *lockRig
+	dumb   z80.DumbMemory
 }
 
 func newC09Rig() *c09Rig { return &c09Rig{ib: bus.New(), sh: bus.New(), lock: newLockRig()} }
@@ -192,9 +220,15 @@ func (r *c09Rig) setup(b *bus.Rec, c *c09Case) {
 
 // run returns (message, label).
 func (r *c09Rig) run(c *c09Case) (string, string, int) {
+	if c.MaskedPending {
+		c.St.IFF1 = false
+	}
 	r.setup(r.sh, c)
-	sp := c09Closed(c.Op, c.St, r.sh)
-	if sp.self && c.NilIO {
+	sp := c09Closed(c.Op, c.St, r.sh, c.DumbLen)
+	if c.DumbLen > 0 && (sp.self || int(c.St.PC)+2 > c.DumbLen || c.St.PC > 0xFFFD) {
+		return "", "short-memory-not-applicable:skipped", sp.steps
+	}
+	if sp.self && (c.NilIO || c.MaskedPending) {
 		return "", "selfmod-without-io-device:skipped", sp.steps
 	}
 	if sp.self {
@@ -207,7 +241,22 @@ func (r *c09Rig) run(c *c09Case) (string, string, int) {
 		r.cpu.IO = nil
 		sp.ports = nil
 	}
+	if c.DumbLen > 0 {
+		if cap(r.dumb) < 65536 {
+			r.dumb = make(z80.DumbMemory, 65536)
+		}
+		r.dumb = r.dumb[:c.DumbLen]
+		for a := range r.dumb {
+			r.dumb[a] = r.ib.Peek(uint16(a))
+		}
+		r.cpu.Memory = r.dumb
+	}
 	eng.ToCPU(&c.St, &r.cpu)
+	var req *z80.Interrupt
+	if c.MaskedPending {
+		req = z80.IM1Interrupt()
+		r.cpu.Interrupt = req
+	}
 	pc0 := c.St.PC
 	bc0 := uint16(c.St.B)<<8 | uint16(c.St.C)
 	rep := c.Op&0x10 != 0
@@ -245,6 +294,17 @@ func (r *c09Rig) run(c *c09Case) (string, string, int) {
 	got.R, want.R = 0, 0
 	if ds := eng.StateDiff(&got, &want, nil, &in); len(ds) > 0 {
 		return name + ": " + ds[0].Kind + ": " + ds[0].Msg, "", sp.steps
+	}
+	if r.cpu.Interrupt != req {
+		return name + ": the refused request that was pending during the operation is gone", "", sp.steps
+	}
+	if c.DumbLen > 0 {
+		for a := 0; a < c.DumbLen; a++ {
+			if r.dumb[a] != r.sh.Peek(uint16(a)) {
+				return fmt.Sprintf("%s on DumbMemory(len %#x): mem[%04x]=%02x want %02x", name, c.DumbLen, a, r.dumb[a], r.sh.Peek(uint16(a))), "", sp.steps
+			}
+		}
+		return "", "closed-form-on-short-DumbMemory", sp.steps
 	}
 	for _, a := range sp.writes {
 		if r.ib.Peek(a) != r.sh.Peek(a) {
@@ -301,7 +361,7 @@ func (r *c09Rig) runLockstep(c *c09Case) string {
 // single vs repeat: one Step of LDI equals the first Step of LDIR from the same state, modulo PC
 // (and bits 5/3 while the repeating form has not finished).
 func (r *c09Rig) singleVsRepeat(c *c09Case) string {
-	if c.Op&0x10 == 0 {
+	if c.Op&0x10 == 0 || c.DumbLen > 0 {
 		return ""
 	}
 	one := func(op int) (ref.State, []bus.Access, any) {
@@ -430,6 +490,19 @@ func TestC09(t *testing.T) {
 			if d.variant&7 == 1 && op&2 != 0 {
 				c.NilIO = true // block I/O on a CPU without I/O device: counters, pointers, flags and memory as ever
 				col.Label("no-io-device")
+			}
+			if d.variant&7 == 4 {
+				c.MaskedPending = true
+				col.Label("masked-request-pending")
+			}
+			if d.variant&7 == 2 && bc != 0 && bc < 4000 {
+				// a DumbMemory that ends in the middle of the source or destination block, or right behind them
+				hl16, de16 := int(uint16(st.H)<<8|uint16(st.L)), int(uint16(st.D)<<8|uint16(st.E))
+				cands := []int{hl16 + 1, hl16 + 2, hl16 + int(bc)/2 + 1, de16 + 1, de16 + int(bc)/2 + 1, 0x8000, hl16 + int(bc) + 1}
+				c.DumbLen = cands[int(d.memSeed>>20)%len(cands)]
+				if c.DumbLen > 65536 || c.DumbLen < 3 {
+					c.DumbLen = 0
+				}
 			}
 			msg, label, steps := rig.run(&c)
 			col.Eval(1)
